@@ -149,7 +149,7 @@ def _check_age(got, subtree, keep, include_leaves, descending):
 
 
 @with_signature(SPEC)
-def c15_iters(**kw):
+def c15_iters(kw):
     tree, nodes, n, idx, nfilter, efilter, keep, fmode = _setup(kw)
     flag1 = True if kw["flag1"] else False
     flag2 = True if kw["flag2"] else False
